@@ -196,3 +196,133 @@ Definition C16_full : Prop :=
         | (_, inl BadOracle) => BadOracle
         | (_, inr c) => GoErr c
         end).
+
+(* ===================================================================================================
+   Added by agent-c16full: C16_full is proved.      Proofs live in proofs/ParRefineA.v (the program monad,
+   [Factors], ownership with postconditions), proofs/ParRefineB.v (which model functions are
+   thread-local), proofs/ParRefine.v (the programs, the refinement, the discipline) and
+   proofs/ParRefineEx.v (the example).
+   =================================================================================================== *)
+From NeatModel Require Import Mutate Mate ParRefineA ParRefine ParRefineEx.
+
+(* The sequential model's per-species reproduction factors through [prog], and its program obeys the
+   ownership discipline. *)
+Theorem C16_full_holds : C16_full.
+Proof. exact species_reproduction_factors. Qed.
+Print Assumptions C16_full_holds.
+
+(* The witness, explicitly.  [species_prog] (proofs/ParRefine.v) is model/Population.reproduce_species
+   and everything below it that touches the environment (one_baby, the mutation cascade,
+   mutateAddNode, mutateAddLink, mutateConnectSensors) rewritten construct by construct over the four
+   primitives; every other function on the path runs as thread-local computation on the goroutine's
+   own tape.  The model function is the in-order execution of the program ... *)
+Theorem C16_species_program_refines : forall o gen sps sorted s h key t e,
+    reproduce_species o gen sps sorted s h key {| s_tape := t; s_env := e |} =
+    match run_seq (species_prog o gen sps sorted s h key t) e with
+    | (e', inl (Ok (r, t'))) => Ok (r, {| s_tape := t'; s_env := e' |})
+    | (_, inl (GoErr c)) => GoErr c
+    | (_, inl (GoPanic c)) => GoPanic c
+    | (_, inl OutOfTape) => OutOfTape
+    | (_, inl OutOfFuel) => OutOfFuel
+    | (_, inl BadOracle) => BadOracle
+    | (_, inr c) => GoErr c
+    end.
+Proof. intros o gen sps sorted s h key t e. exact (F_reproduce_species o gen sps sorted s h key t e). Qed.
+Print Assumptions C16_species_program_refines.
+
+(* ... and the program stores only numbers it was handed out itself, each once, whatever it owned
+   when it started (in particular from nothing) *)
+Theorem C16_species_program_disciplined : forall o gen sps sorted s h key t own0,
+    ok_prog own0 (species_prog o gen sps sorted s h key t).
+Proof. intros o gen sps sorted s h key t own0. exact (species_prog_ok o gen sps sorted s h key t own0). Qed.
+Print Assumptions C16_species_program_disciplined.
+
+(* "thread-local" has content: a computation is thread-local when, whatever environment it is
+   started in, it returns the same result, leaves the same tape and hands the environment back
+   untouched.  The non-structural mutators, the three crossovers and the parent draws are; the
+   counter operations and the read of the record are not. *)
+Theorem C16_thread_local_operators : forall o g og id f1 f2 power rate gaussian tries self sorted cur t e e',
+    mutate_all_nonstructural o g {| s_tape := t; s_env := e |} =
+      rebase e (mutate_all_nonstructural o g {| s_tape := t; s_env := e' |}) /\
+    mutate_link_weights power rate gaussian g {| s_tape := t; s_env := e |} =
+      rebase e (mutate_link_weights power rate gaussian g {| s_tape := t; s_env := e' |}) /\
+    mate_multipoint g og id f1 f2 {| s_tape := t; s_env := e |} =
+      rebase e (mate_multipoint g og id f1 f2 {| s_tape := t; s_env := e' |}) /\
+    mate_multipoint_avg g og id f1 f2 {| s_tape := t; s_env := e |} =
+      rebase e (mate_multipoint_avg g og id f1 f2 {| s_tape := t; s_env := e' |}) /\
+    mate_singlepoint g og id {| s_tape := t; s_env := e |} =
+      rebase e (mate_singlepoint g og id {| s_tape := t; s_env := e' |}) /\
+    pick_other_species tries self sorted cur {| s_tape := t; s_env := e |} =
+      rebase e (pick_other_species tries self sorted cur {| s_tape := t; s_env := e' |}).
+Proof.
+  intros o g og id f1 f2 power rate gaussian tries self sorted cur t e e'.
+  exact (conj (ParRefineB.ei_mutate_all_nonstructural o g t e e')
+        (conj (ParRefineB.ei_mutate_link_weights power rate gaussian g t e e')
+        (conj (ParRefineB.ei_mate_multipoint g og id f1 f2 t e e')
+        (conj (ParRefineB.ei_mate_multipoint_avg g og id f1 f2 t e e')
+        (conj (ParRefineB.ei_mate_singlepoint g og id t e e')
+              (ParRefineB.ei_pick_other_species tries self sorted cur t e e')))))).
+Qed.
+Print Assumptions C16_thread_local_operators.
+
+Theorem C16_counters_not_thread_local :
+  ~ (forall t e e', e_next_innov {| s_tape := t; s_env := e |} = rebase e (e_next_innov {| s_tape := t; s_env := e' |})) /\
+  ~ (forall t e e', e_innovs {| s_tape := t; s_env := e |} = rebase e (e_innovs {| s_tape := t; s_env := e' |})).
+Proof. exact (conj e_next_innov_not_indep e_innovs_not_indep). Qed.
+Print Assumptions C16_counters_not_thread_local.
+
+(* The non-partial form of C16_par_env_extends_partial: for every pool whose goroutines are
+   species-reproduction programs of the model (any options, species, heap, key counter and tape each)
+   and EVERY schedule, complete or not, the environment reached extends the initial one; hence every
+   genome that was consistent with the initial environment is consistent with the one reached
+   (every number still denotes one link). *)
+Theorem C16_par_env_extends : forall (ts ts' : list (prog (res (list organism * Z * list Z * tape)))) e0 e lbs,
+    (forall p, In p ts -> exists o gen sps sorted s h key t, p = species_prog o gen sps sorted s h key t) ->
+    steps (e0, ts) lbs (e, ts') ->
+    env_extends e0 e /\ (forall g, env_ok e0 g -> env_ok e g).
+Proof.
+  intros ts ts' e0 e lbs Hts Hs.
+  pose proof (model_pool_env_extends ts ts' e0 e lbs Hts Hs) as X.
+  exact (conj X (fun g Hg => env_ok_extends e0 e g Hg X)).
+Qed.
+Print Assumptions C16_par_env_extends.
+
+(* The sequential executor is one of these schedules: whenever the model's sequential [reproduce_all]
+   (species after species, threading heap, key counter and tape) succeeds, the pool made of each
+   species' program -- started from the heap, key counter and tape the sequential run had reached at
+   that point -- has a schedule that ends in the same environment with every goroutine finished
+   successfully. *)
+Theorem C16_sequential_reproduce_is_a_schedule :
+  forall o gen sps sorted best_id l h key babies br t e r t' e',
+    reproduce_all o gen sps sorted best_id l h key babies br {| s_tape := t; s_env := e |}
+    = Ok (r, {| s_tape := t'; s_env := e' |}) ->
+    exists (starts : list (list organism * Z * tape)) lbs ts',
+      List.length starts = List.length l /\
+      steps (e, map (fun sj => species_prog o gen sps sorted (fst sj) (fst (fst (snd sj))) (snd (fst (snd sj))) (snd (snd sj)))
+                    (combine l starts)) lbs (e', ts') /\
+      Forall (fun p => exists x, p = Ret (Ok x)) ts' /\
+      env_extends e e'.
+Proof. exact sequential_reproduce_is_a_schedule. Qed.
+Print Assumptions C16_sequential_reproduce_is_a_schedule.
+
+(* non-vacuity: the first turnover of a spawned population of 16 (three species, quotas 4, 4, 8; Go's
+   PRNG stream per goroutine).  Under a round-robin schedule two goroutines both split the gene 2->4,
+   both miss a record for it and both allocate: two records for one structural key -- what
+   parallelism gives up -- while the sequential schedule produces different records with different
+   numbers.  Both schedules run every goroutine to a successful end, and both final environments
+   extend the initial one by the theorem above. *)
+Example C16_example_model_pool :
+  (let c := exec_sched (round_robin 10 3) pex_pool in (env_summary (fst c), map finished (snd c)))
+  = (([(2, 4, 4, 0, 4, 0, 0); (1, 2, 4, 2, 5, 7, 6); (1, 2, 4, 2, 6, 8, 7)], 8, 7), [1; 1; 1])
+  /\
+  (let c := run_all (snd pex_pool) (fst pex_pool) in (env_summary (fst c), map finished (snd c)))
+  = (([(1, 2, 4, 2, 4, 5, 6); (2, 4, 4, 0, 6, 0, 0); (1, 1, 4, 1, 7, 8, 7)], 8, 7), [1; 1; 1])
+  /\
+  env_summary (fst pex_pool) = ([], 3, 5)
+  /\
+  env_extends (fst pex_pool) (fst (exec_sched (round_robin 10 3) pex_pool)) /\
+  env_extends (fst pex_pool) (fst (run_all (snd pex_pool) (fst pex_pool))).
+Proof.
+  split; [exact pex_round_robin|]. split; [exact pex_sequential|].
+  split; [vm_compute; reflexivity|]. exact pex_both_extend.
+Qed.
